@@ -1333,3 +1333,215 @@ func callMayWriteField(ms *mutSummary, c ssa.CallInstruction, fv *types.Var) boo
 	}
 	return false
 }
+
+// ---------------------------------------------------------------------------
+// R-GRID-BOUND (C06, C09): every index / slice bound applied to Table.Grid.Cols follows from the
+// comparisons that dominate it.  A small difference-bound prover over one function: nodes are
+// integer SSA values (modulo ±constant) and len(t.Grid.Cols); every dominating branch contributes
+// x − y ≤ c for the edge taken; an index use S[v+k] needs v+k ≤ len−1, a slice bound S[v+k:] /
+// S[:v+k] needs v+k ≤ len.  Only uses that sit under a guard mentioning len(t.Grid.Cols) are
+// obligations (a use with no such guard at all is not this rule's shape); a guard on the wrong
+// variable (startIndex checked, endIndex+1 used) is the defect it finds: the grid of an opened
+// table can be shorter than its rows, so the call panics.
+// ---------------------------------------------------------------------------
+
+func offsetOf(v ssa.Value) (ssa.Value, int64) {
+	var off int64
+	for {
+		if bo, ok := v.(*ssa.BinOp); ok && (bo.Op == token.ADD || bo.Op == token.SUB) {
+			if c, ok := constInt(bo.Y); ok {
+				if bo.Op == token.ADD {
+					off += c
+				} else {
+					off -= c
+				}
+				v = bo.X
+				continue
+			}
+		}
+		return v, off
+	}
+}
+
+func ruleGridBound(r *Run) {
+	p := r.P
+	nUses := 0
+	isGridCols := func(v ssa.Value) bool {
+		ld, ok := v.(*ssa.UnOp)
+		if !ok || ld.Op != token.MUL {
+			return false
+		}
+		fv, _ := fieldOfAddr(ld.X)
+		return fieldIs(p, fv, pkgDoc, "TableGrid", "Cols")
+	}
+	const lenNode = "len(Grid.Cols)"
+	for _, fn := range p.ModFuncs() {
+		if fn.Pkg == nil || fn.Pkg.Pkg.Path() != pkgDoc || len(fn.Blocks) == 0 {
+			continue
+		}
+		node := func(v ssa.Value) (string, int64, bool) {
+			b, off := offsetOf(v)
+			if c, ok := b.(*ssa.Call); ok {
+				if bi, ok := c.Call.Value.(*ssa.Builtin); ok && bi.Name() == "len" && isGridCols(c.Call.Args[0]) {
+					return lenNode, off, true
+				}
+			}
+			if c, ok := constInt(b); ok {
+				return "0", off + c, true
+			}
+			if bt, ok := b.Type().Underlying().(*types.Basic); !ok || bt.Info()&types.IsInteger == 0 {
+				return "", 0, false
+			}
+			return fmt.Sprintf("%p", b), off, true
+		}
+		type edge struct {
+			from, to string
+			w        int64
+		} // to − from ≤ w
+		// constraints contributed by the branch of block d towards successor index si
+		branchFacts := func(d *ssa.BasicBlock, si int) []edge {
+			iff, ok := d.Instrs[len(d.Instrs)-1].(*ssa.If)
+			if !ok {
+				return nil
+			}
+			bo, ok := iff.Cond.(*ssa.BinOp)
+			if !ok {
+				return nil
+			}
+			xn, xo, ok1 := node(bo.X)
+			yn, yo, ok2 := node(bo.Y)
+			if !ok1 || !ok2 {
+				return nil
+			}
+			// normalise to  X + xo  op  Y + yo
+			op := bo.Op
+			if si == 1 { // negate
+				switch op {
+				case token.LSS:
+					op = token.GEQ
+				case token.LEQ:
+					op = token.GTR
+				case token.GTR:
+					op = token.LEQ
+				case token.GEQ:
+					op = token.LSS
+				case token.EQL:
+					return nil
+				case token.NEQ:
+					op = token.EQL
+				default:
+					return nil
+				}
+			}
+			switch op {
+			case token.LSS: // X+xo < Y+yo  ⇒ X − Y ≤ yo−xo−1
+				return []edge{{yn, xn, yo - xo - 1}}
+			case token.LEQ:
+				return []edge{{yn, xn, yo - xo}}
+			case token.GTR: // Y+yo < X+xo ⇒ Y − X ≤ xo−yo−1
+				return []edge{{xn, yn, xo - yo - 1}}
+			case token.GEQ:
+				return []edge{{xn, yn, xo - yo}}
+			case token.EQL:
+				return []edge{{yn, xn, yo - xo}, {xn, yn, xo - yo}}
+			}
+			return nil
+		}
+		prove := func(at *ssa.BasicBlock, v ssa.Value, slack int64) (proved, guarded bool) {
+			vn, vo, ok := node(v)
+			if !ok {
+				return false, false
+			}
+			var edges []edge
+			for _, d := range fn.Blocks {
+				if d == at || !d.Dominates(at) || len(d.Instrs) == 0 || len(d.Succs) != 2 || d.Succs[0] == d.Succs[1] {
+					continue
+				}
+				for si := 0; si < 2; si++ {
+					if edgeRegion(d, d.Succs[si])[at] && !edgeRegion(d, d.Succs[1-si])[at] {
+						fs := branchFacts(d, si)
+						for _, e := range fs {
+							if e.from == lenNode || e.to == lenNode {
+								guarded = true
+							}
+						}
+						edges = append(edges, fs...)
+					}
+				}
+			}
+			// Bellman-Ford from lenNode: dist[x] = least w with x − len ≤ w
+			dist := map[string]int64{lenNode: 0}
+			for round := 0; round < 12; round++ {
+				changed := false
+				for _, e := range edges {
+					if df, ok := dist[e.from]; ok {
+						if dt, ok2 := dist[e.to]; !ok2 || df+e.w < dt {
+							dist[e.to] = df + e.w
+							changed = true
+						}
+					}
+				}
+				if !changed {
+					break
+				}
+			}
+			d, ok := dist[vn]
+			if !ok {
+				return false, guarded
+			}
+			return d+vo <= slack, guarded
+		}
+		seenKey := map[string]int{}
+		allInstrs(fn, func(in ssa.Instruction) {
+			type use struct {
+				v     ssa.Value
+				slack int64
+				what  string
+			}
+			var uses []use
+			switch x := in.(type) {
+			case *ssa.IndexAddr:
+				if !isGridCols(x.X) {
+					return
+				}
+				uses = append(uses, use{x.Index, -1, "index"})
+			case *ssa.Slice:
+				if !isGridCols(x.X) {
+					return
+				}
+				if x.Low != nil {
+					uses = append(uses, use{x.Low, 0, "low bound"})
+				}
+				if x.High != nil {
+					uses = append(uses, use{x.High, 0, "high bound"})
+				}
+			default:
+				return
+			}
+			for _, u := range uses {
+				if _, isC := constInt(u.v); isC {
+					continue
+				}
+				// the lowering of `for i := range cols`: index phi bounded by the loop header
+				if b, _ := offsetOf(u.v); b != nil {
+					if _, isPhi := b.(*ssa.Phi); isPhi {
+						continue
+					}
+				}
+				proved, guarded := prove(in.Block(), u.v, u.slack)
+				if !guarded {
+					continue
+				}
+				nUses++
+				key := fmt.Sprintf("%s:%s", shortName(topLevel(fn)), u.what)
+				seenKey[key]++
+				if seenKey[key] > 1 {
+					key = fmt.Sprintf("%s#%d", key, seenKey[key])
+				}
+				r.Check("grid-bound", key, in.Pos(), proved,
+					fmt.Sprintf("%s uses %s as %s of t.Grid.Cols under a guard on len(t.Grid.Cols); the comparisons that dominate the use %s that it is in range (the grid of an opened table may be shorter than its rows: the guard must bound the value that is actually used)", shortName(topLevel(fn)), symOfExpr(u.v), u.what, map[bool]string{true: "imply", false: "do NOT imply"}[proved]))
+			}
+		})
+	}
+	r.Min("guarded_grid_uses", nUses, 4)
+}
